@@ -49,6 +49,8 @@ var stopWordPool = func() []string {
 	return out
 }()
 
+func firstWordsLen() int { return len(firstWords) }
+
 func methodName(r *rand.Rand, glued, digits bool) []string {
 	if glued {
 		// the known-defect shape: a single lower-case letter directly followed by an ALLCAPS word
@@ -58,7 +60,31 @@ func methodName(r *rand.Rand, glued, digits bool) []string {
 		}
 		return ps
 	}
-	ps := []string{firstWords[r.Intn(len(firstWords))]}
+	if !digits && r.Intn(10) == 0 {
+		// snake-style and decorated names (generated code, test names): should_reject__emptyOrder, _loadBasket, total_
+		var ps []string
+		if r.Intn(3) == 0 {
+			ps = append(ps, "_")
+		}
+		n := 1 + r.Intn(3)
+		for i := 0; i < n; i++ {
+			if i > 0 {
+				ps = append(ps, []string{"_", "_", "__"}[r.Intn(3)])
+			}
+			ps = append(ps, []string{"should", "reject", "load", "total", "empty", "basket", "when", "order", "return"}[r.Intn(9)])
+			if r.Intn(3) == 0 {
+				ps = append(ps, laterWords[r.Intn(len(laterWords))])
+			}
+		}
+		if r.Intn(5) == 0 {
+			ps = append(ps, "_")
+		}
+		if len(ps) == 1 && javaKeywords[ps[0]] {
+			ps = append(ps, "_", "x1"[:1])
+		}
+		return ps
+	}
+	ps := []string{firstWords[r.Intn(firstWordsLen())]}
 	k := r.Intn(4)
 	if r.Intn(10) == 0 {
 		k = 4 + r.Intn(2)
